@@ -3,7 +3,7 @@
    exceed MaxTotalVotingPower: the last way a block could stop is excluded. *)
 From stdpp Require Import gmap.
 Require Import Model.Base Model.Ante Model.Validate Model.Current Model.State Model.Staking Model.Slashing Model.Poa Model.App.
-Require Import proofs.Inv proofs.InvIdx proofs.L1Effects proofs.InvPres proofs.InvMsgs proofs.InvHistory proofs.InvQueue proofs.InvPools proofs.InvComet proofs.InvElig proofs.InvLive proofs.InvUpd proofs.InvBegin proofs.InvTotal.
+Require Import proofs.EvBasic proofs.Inv proofs.InvIdx proofs.L1Effects proofs.InvPres proofs.InvMsgs proofs.InvHistory proofs.InvQueue proofs.InvPools proofs.InvComet proofs.InvElig proofs.InvLive proofs.InvUpd proofs.InvBegin proofs.InvTotal.
 Open Scope Z_scope.
 
 Definition KB (N : Z) (c : chain) : Prop :=
@@ -66,11 +66,31 @@ Proof.
   eapply (KB_update N cs _ j (set_jailed vj true) HK1); [reflexivity|reflexivity|exact Hc|exact Ht].
 Qed.
 
-Lemma begin_block_KB N c votes absent c' : KB N c -> begin_block c votes absent = inl c' -> KB N c'.
+Lemma jail_KB N c k s2 : KB N c -> jail (stk c) k = Some s2 -> KB N (with_stk c s2).
+Proof.
+  intros HK Ej. unfold jail in Ej. destruct (by_cons (stk c) !! k) as [j|]; [|discriminate]. destruct (vals (stk c) !! j) as [vj|] eqn:Hvj; [|discriminate].
+  destruct (v_jailed vj); [discriminate|]. inversion Ej; subst. destruct (proj1 HK j vj Hvj) as [Hc Ht].
+  eapply (KB_update N c _ j (set_jailed vj true) HK); [reflexivity|reflexivity|exact Hc|exact Ht].
+Qed.
+
+Lemma handle_evidence_KB N c e c' : KB N c -> handle_evidence c e = Some c' -> KB N c'.
+Proof.
+  intros HK H. apply handle_evidence_cases in H as [->|(id & v & i & c1 & s2 & _ & _ & _ & _ & _ & _ & Es & Hj & ->)]; [exact HK|].
+  pose proof (slash_KB N _ _ _ _ _ HK Es) as HK1. destruct Hj as [[_ ->]|[_ Ej]].
+  - eapply KB_ext; [| |exact HK1]; reflexivity.
+  - eapply KB_ext; [| |exact (jail_KB N _ _ _ HK1 Ej)]; reflexivity.
+Qed.
+
+Lemma handle_evidences_KB N evs c c' : KB N c -> handle_evidences evs c = Some c' -> KB N c'.
+Proof. apply (handle_evidences_preserves (KB N)). intros; eapply handle_evidence_KB; eauto. Qed.
+
+Lemma begin_block_KB N c votes absent evs c' : KB N c -> begin_block c votes absent evs = inl c' -> KB N c'.
 Proof.
   intros HK. unfold begin_block. destruct (_ && _); [discriminate|]. destruct (handle_votes votes absent c) as [c1|] eqn:E; [|discriminate].
-  intros [= <-]. pose proof (handle_votes_KB N _ _ _ _ HK E) as H1. unfold poa_begin_block. destruct (1 <? height c1); [|exact H1].
-  eapply KB_ext; [| |exact H1]; reflexivity.
+  destruct (handle_evidences evs c1) as [c2|] eqn:E2; [|discriminate].
+  intros [= <-]. pose proof (handle_votes_KB N _ _ _ _ HK E) as H1. pose proof (handle_evidences_KB N _ _ _ H1 E2) as H2.
+  unfold poa_begin_block. destruct (1 <? height c2); [|exact H2].
+  eapply KB_ext; [| |exact H2]; reflexivity.
 Qed.
 
 Lemma valid_power_le val power : setpower_validate (0 <=? val) power = Ok tt -> 0 <= cast_i64 power <= max_int64.
@@ -269,8 +289,8 @@ Proof.
   intros HN0 HN [HCI Hrel] HK Hkb Hh. specialize (Hrel Hh). unfold run_block. rewrite Hh.
   set (c0 := with_clock (w_chain w) (height (w_chain w) + 1) (now (w_chain w) + b_dt b)).
   assert (H0 : CI c0) by (apply CI_clock; exact HCI). assert (K0 : KB N c0) by exact HK.
-  destruct (begin_block c0 _ (b_absent b)) as [c1|e] eqn:Eb; [|discriminate].
-  pose proof (begin_block_CI _ _ _ _ H0 Eb) as H1. pose proof (begin_block_MS _ _ _ _ Eb) as M1. pose proof (begin_block_KB N _ _ _ _ K0 Eb) as K1.
+  destruct (begin_block c0 _ (b_absent b) (b_evidence b)) as [c1|e] eqn:Eb; [|discriminate].
+  pose proof (begin_block_CI _ _ _ _ _ H0 Eb) as H1. pose proof (begin_block_MS _ _ _ _ _ Eb) as M1. pose proof (begin_block_KB N _ _ _ _ _ K0 Eb) as K1.
   pose proof (deliver_txs_CI (b_txs b) c1 H1) as H2. pose proof (deliver_txs_MS (b_txs b) c1 H1) as M2. pose proof (deliver_txs_KB N (b_txs b) c1 Hkb H1 K1) as K2.
   destruct (deliver_txs c1 (b_txs b)) as [c2 outs]. cbn in H2, M2, K2.
   assert (Hrel2 : comet_rel (stk c2) (c_next (w_comet w))).
@@ -359,8 +379,8 @@ Proof.
   intros HCI HK Hkb. unfold run_block. destruct (w_halted w); [exact HK|].
   set (c0 := with_clock (w_chain w) (height (w_chain w) + 1) (now (w_chain w) + b_dt b)).
   assert (H0 : CI c0) by (apply CI_clock; exact HCI). assert (K0 : KB N c0) by exact HK.
-  destruct (begin_block c0 _ (b_absent b)) as [c1|e] eqn:Eb; [|exact K0].
-  pose proof (begin_block_CI _ _ _ _ H0 Eb) as H1. pose proof (begin_block_KB N _ _ _ _ K0 Eb) as K1.
+  destruct (begin_block c0 _ (b_absent b) (b_evidence b)) as [c1|e] eqn:Eb; [|exact K0].
+  pose proof (begin_block_CI _ _ _ _ _ H0 Eb) as H1. pose proof (begin_block_KB N _ _ _ _ _ K0 Eb) as K1.
   pose proof (deliver_txs_CI (b_txs b) c1 H1) as H2. pose proof (deliver_txs_KB N (b_txs b) c1 Hkb H1 K1) as K2.
   destruct (deliver_txs c1 (b_txs b)) as [c2 outs]. cbn in H2, K2.
   destruct (staking_end_block c2) as [c3 upd|e] eqn:Ee; [|exact K2].
@@ -388,11 +408,11 @@ Proof. vm_compute. discriminate. Qed.
 (* nothing left: under the environment hypotheses no history halts *)
 Theorem history_never_halts_at_all m N g bs :
   wf_genesis g -> wf_genesis_bounded N g -> 0 <= N -> N * max_power_one <= max_total_voting_power ->
-  1 <= g_max_vals g -> 1 <= m -> m <= g_unbond_secs g -> 0 <= g_slash_down_bp g ->
-  Forall (ut_block m) bs -> Forall (kb_block N) bs -> env_ok (init_world g) bs ->
+  1 <= g_max_vals g -> 1 <= m -> m <= g_unbond_secs g -> 0 <= g_slash_down_bp g -> 0 <= g_slash_dbl_bp g ->
+  Forall (ut_block m) bs -> Forall (kb_block N) bs -> env_ok (init_world g) bs -> ev_env (init_world g) bs ->
   w_halted (run_world (init_world g) bs) = None.
 Proof.
-  intros Hwf Hb HN0 HN Hcap Hm Hmu Hbp Hut Hkb Henv.
-  destruct (history_never_halts m g bs Hwf Hcap Hm Hmu Hbp Hut Henv) as [H|H]; [exact H|].
+  intros Hwf Hb HN0 HN Hcap Hm Hmu Hbp Hbp2 Hut Hkb Henv Hev.
+  destruct (history_never_halts m g bs Hwf Hcap Hm Hmu Hbp Hbp2 Hut Henv Hev) as [H|H]; [exact H|].
   exfalso. exact (history_never_too_large N g bs Hwf Hb HN0 HN Hkb H).
 Qed.
